@@ -6,6 +6,8 @@ open CaddyModel.C01
 #print axioms accepted_installs
 #print axioms unchanged_is_noop
 #print axioms accepted_is_ok_or_same
+#print axioms rejected_leaves_no_module
+#print axioms reachable_invariants
 #print axioms history_atomic_partial
 #print axioms step_atomic_partial
 #print axioms stop_leaves_nothing
